@@ -221,7 +221,11 @@ func gen(r *hx.Rand) [][]*big.Int {
 			cs = append(cs, b.I(4, w).Big(base).I(rg.Range(p0, w)).L)
 		}
 	}
-	// route tables
+	// route tables: every interface index a node can plausibly reach, then sampled large ones
+	for idx := 0; idx <= 4096; idx++ {
+		var b hx.B
+		cs = append(cs, b.I(5, idx).L)
+	}
 	for j := 0; j < 20*n; j++ {
 		var b hx.B
 		idx := rt.Intn(1 << uint(rt.Range(1, 31)))
